@@ -87,7 +87,8 @@ IP::IP(const uint8_t* buffer, uint32_t total_sz) {
     // While the end of the options is not reached read an option
     while (stream.pointer() < options_end) {
         option_identifier opt_type = (option_identifier)stream.read<uint8_t>();
-        if (opt_type.number > NOOP) {
+        // Only the End of Option List (0) and No Operation (1) octets stand alone
+        if (opt_type.number > NOOP || opt_type.op_class != CONTROL || opt_type.copied != 0) {
             // Multibyte options with length as second byte
             const uint32_t option_size = stream.read<uint8_t>();
             if (TINS_UNLIKELY(option_size < (sizeof(uint8_t) << 1))) {
@@ -322,7 +323,7 @@ uint32_t IP::calculate_options_size() const {
         options_size += sizeof(uint8_t);
         const option_identifier option_id = iter->option();
         // Only add length field and data size for non [NOOP, EOL] options
-        if (option_id.op_class != CONTROL || option_id.number > NOOP) {
+        if (option_id.op_class != CONTROL || option_id.number > NOOP || option_id.copied != 0) {
             options_size += sizeof(uint8_t) + iter->data_size();
         }
     }
